@@ -91,7 +91,7 @@ def run(check, tier):
             if quick:
                 fixed = dict(a=a, n=n, menu=h.QUICK_NUM_IDX, wrap=rnd.randrange(3))
             elif n == 2:
-                fixed = dict(a=a, n=n, wrap=rnd.randrange(3))                      # first member fixed, second over the whole menu
+                fixed = dict(a=a, n=n, wrap=rnd.randrange(3), c=0)                 # first member fixed, second over the whole menu (third unused)
             else:
                 # three members: the other two range over the quick representatives plus four seeded menu entries (all 21 x 21
                 # continuations per first member take > 15 CPU-minutes per job, 21 jobs)
